@@ -217,8 +217,11 @@ fn gen_case(rng: &mut Rng, big: bool) -> CaseIn {
         1 => maxn,
         _ => rng.range(3, maxn),
     } as usize;
-    // time step profile: 0 dense (ms), 1 around a second (window entries), 2 mixed with jumps
-    let step_profile = rng.below(3);
+    // tie mode: few distinct reception times and indices, timestamps beyond the reception time (capped):
+    // many entries with equal (calculated time, index) so that the heap's tie-breaking shows
+    let tie_mode = rng.chance(1, 7);
+    // time step profile: 0 dense (ms), 1 around a second (window entries), 2 mixed with jumps, 3 mostly standing still
+    let step_profile = if tie_mode { 3 } else { rng.below(3) };
     let table_mode: u8 = match rng.below(12) {
         0 => 1,
         1 => 2,
@@ -259,6 +262,13 @@ fn gen_case(rng: &mut Rng, big: bool) -> CaseIn {
         let step = match step_profile {
             0 => rng.below(20_000),
             1 => rng.range(300_000, 1_400_000),
+            3 => {
+                if rng.chance(1, 4) {
+                    rng.below(1_500_000)
+                } else {
+                    0
+                }
+            }
             _ => match rng.below(10) {
                 0 => rng.range(1_000_000, 4_000_000),
                 1 => 0,
@@ -316,12 +326,15 @@ fn gen_case(rng: &mut Rng, big: bool) -> CaseIn {
             5 => 1 + rng.below(256) as u16,       // any type byte
             _ => 0,
         };
+        if tie_mode && rng.chance(2, 3) {
+            ts = u32::MAX as u64 - rng.below(5); // far beyond the reception time: capped
+        }
         if is_ctrl_request(ext) && rng.chance(1, 2) {
             ts = rng.below(1 << 32); // timestamp of the logger's own clock: must be ignored
         }
-        let index = match idx_mode {
+        let index = match if tie_mode { idx_mode % 2 } else { idx_mode } {
             0 => 7,
-            1 => rng.below(8) as u32,
+            1 => rng.below(if tie_mode { 3 } else { 8 }) as u32,
             _ => {
                 idx += 1 + if rng.chance(1, 6) { rng.below(4) as u32 } else { 0 };
                 idx
@@ -494,9 +507,9 @@ fn main() {
         record(&mut sink, c, "corpus");
     }
     let n = a.count.unwrap_or(match a.tier.as_str() {
-        "quick" => 700,
-        "thorough" => 12000,
-        _ => 3000,
+        "quick" => 1500,
+        "thorough" => 24000,
+        _ => 6000,
     });
     let mut rng = Rng::new(a.seed);
     for _ in 0..n {
